@@ -6,6 +6,8 @@
      R4 a batch whose first offending header is forbidden: the sender is disconnected (and banned by the default
         engine) in that very step and nothing is requested in it
      R5 a batch whose first offending header contradicts the next checkpoint: disconnected, nothing requested
+     R5' (independent of the cursor the implementation reports) a batch that extends the tip header by header and whose
+        header at the height of the least checkpoint above the tip differs from that checkpoint: the sender is disconnected
      R6 every request made while handling headers carries the hash of the checkpoint the cursor points at, the zero
         hash when none is left (SyncSpec.spec_stop); a clean batch containing the expected checkpoint moves the cursor
         to the least checkpoint above it (SyncSpec.spec_advance) *)
@@ -32,6 +34,7 @@ let spec input obs_s =
     let cp_id_at h = try Some (Stdlib.List.assoc h sc.cps) with Not_found -> None in
     let verdict = ref "OK" in
     let fail c d = if !verdict = "OK" then verdict := "FAIL " ^ c ^ " " ^ d in
+    let n_contra = ref 0 and n_forb = ref 0 and n_adv = ref 0 in
     (* R1, R2 *)
     let rows = orows o in
     if not (SyncSpec.spec_forbidden_absent sc.hist.forbidden rows) then fail "forbidden-stored" "a forbidden hash is in the headers table";
@@ -73,8 +76,27 @@ let spec input obs_s =
             | [] -> `None
             | i :: r -> if is_forb i then `Forb else if contradicts i then `Contra else first_bad r in
           let active = hfm_of !prev_state in
+          (* R5': the checkpoint the engine OUGHT to be waiting for = least checkpoint above the tip's height (SyncNode.least_above) *)
+          (match th (tip_of !prev_state) with
+           | Some tiph when linear_on_tip && hfm_of !prev_state ->
+             (match SyncNode.least_above cps (z_of_int tiph) with
+              | Some (hz, cidn) ->
+                let hh = int_of_z hz and cid = int_of_n cidn in
+                let rec scan pos = function
+                  | [] -> ()
+                  | i :: r ->
+                    if is_forb i then ()
+                    else if tiph + pos = hh then
+                      (if i <> cid then incr n_contra;
+                       if i <> cid && not (has_prefix_eff "X" p e.effs) then
+                         fail "checkpoint-contradiction-accepted" (Printf.sprintf "%s: header %d at height %d, checkpoint %d" e.label i hh cid))
+                    else scan (pos + 1) r in
+                scan 1 e.batch
+              | None -> ())
+           | _ -> ());
           (match first_bad e.batch with
            | `Forb ->
+             incr n_forb;
              if not (has_prefix_eff "X" p e.effs) then fail "forbidden-sender-not-disconnected" e.label;
              if (not is_x) && active && not (has_prefix_eff "B" p e.effs) then fail "forbidden-sender-not-banned" e.label;
              if Stdlib.List.exists (fun (q, _, _) -> q = p) gs then fail "request-after-forbidden" e.label
@@ -86,6 +108,7 @@ let spec input obs_s =
            | `None ->
              if active && linear_on_tip && Stdlib.List.exists matches e.batch then begin
                let nh_after = next_of e.state in
+               incr n_adv;
                if not (SyncSpec.spec_advance cps (z_of_int nh) (z_of_int nh_after)) then
                  fail "cursor-not-advanced" (Printf.sprintf "%s: next checkpoint %d -> %d" e.label nh nh_after)
              end);
@@ -101,6 +124,6 @@ let spec input obs_s =
         Stdlib.List.iter (fun eff -> if Stdlib.String.length eff > 1 && eff.[0] = 'X' then Hashtbl.replace dropped (int_of_string (after 1 eff)) ()) e.effs;
         if Stdlib.List.mem "P" e.effs then fail "panic" e.label;
         prev_state := e.state) step) o.steps;
-    !verdict
+    if !verdict = "OK" then Printf.sprintf "OK forbidden-deliveries=%d contradictions=%d advances=%d" !n_forb !n_contra !n_adv else !verdict
 
 let () = run_driver model spec
